@@ -330,4 +330,16 @@ theorem no_panic_query_reachable (ext : Ext) (cfg : Cfg) (g : Genesis) (st0 : St
     query ext (reached ext cfg g st0 led txs).store nilReq q ≠ .error .panic :=
   no_panic_query ext _ nilReq q (reached_roles ext cfg g st0 led txs hl hi) hp
 
+/-! non-vacuity: the toy genesis initialises, so every state reached from it by any chain of transactions — here a
+    deposit and a receive in one transaction, then a send — meets the hypotheses of `no_panic_reachable`; the next
+    message (a replacement, a deposit with an absent amount) does not panic there -/
+example : (deliver Toy.ext Toy.cfg (reached Toy.ext Toy.cfg Toy.genesis Toy.st Toy.led [[([], Toy.deposit), ([], Toy.receive)], [([], Toy.send)]])
+    [] Toy.replace).2.fail ≠ some .panic :=
+  no_panic_reachable Toy.ext Toy.cfg Toy.genesis Toy.st Toy.led _ rfl rfl [] Toy.replace (by simp [AttOK, Toy.replace, Toy.sig1])
+    (by intro fr a d r t h; rcases h with h | ⟨c, h⟩ <;> simp [Toy.replace] at h)
+example : (deliver Toy.ext Toy.cfg (reached Toy.ext Toy.cfg Toy.genesis Toy.st Toy.led []) [true]
+    (.depositForBurn Toy.alice none 0 (List.replicate 32 9) Toy.denom)).2.fail ≠ some .panic :=
+  no_panic_reachable Toy.ext Toy.cfg Toy.genesis Toy.st Toy.led _ rfl rfl [true] _ (by simp [AttOK])
+    (by intro fr a d r t h x hx; rcases h with h | ⟨c, h⟩ <;> simp at h; obtain ⟨_, rfl, _⟩ := h; cases hx)
+
 end Cctp.C20
